@@ -234,8 +234,8 @@ impl Prop for C13 {
         match (tier, cfg!(debug_assertions)) {
             (Tier::Quick, true) => 1_500_000,
             (Tier::Quick, false) => 1_500_000,
-            (Tier::Thorough, true) => 60_000_000,
-            (Tier::Thorough, false) => 60_000_000,
+            (Tier::Thorough, true) => 250_000_000,
+            (Tier::Thorough, false) => 250_000_000,
         }
     }
     fn gen(&self, rng: &mut Rng, _tier: Tier) -> ScanCase {
@@ -573,8 +573,8 @@ impl Prop for C16 {
         match (tier, cfg!(debug_assertions)) {
             (Tier::Quick, true) => 1_500_000,
             (Tier::Quick, false) => 500_000,
-            (Tier::Thorough, true) => 60_000_000,
-            (Tier::Thorough, false) => 20_000_000,
+            (Tier::Thorough, true) => 250_000_000,
+            (Tier::Thorough, false) => 80_000_000,
         }
     }
     fn gen(&self, rng: &mut Rng, _tier: Tier) -> HelperCase {
